@@ -25,6 +25,8 @@ type kernelSpec struct {
 	Ret    string            // Lean return type
 	Target string            // fragment kernels: the assigned lvalue (normalised); "" for whole-function kernels
 	Occ    int               // fragment kernels: which maximal assignment chain inside Func (0-based, source order)
+	Kind   string            // "" whole function | "chain" (default when Target set) | "assign": the Occ-th plain assignment / definition of Target |
+	//                          "guard": the condition of the innermost `if` whose body directly contains the call statement Target
 }
 
 var kernelSpecs = []kernelSpec{
@@ -61,6 +63,30 @@ var kernelSpecs = []kernelSpec{
 	{Name: "expAck", Pkg: "server", Recv: "LockDB", Func: "DoAckLock", Ret: "Int", Target: "lock.expriedTime", Occ: 0,
 		Params: []string{"start : Int", "eflag : Nat16", "expried : Nat16"},
 		Map:    map[string]string{"lock.startTime": "start", "lock.command.ExpriedFlag": "eflag", "lock.command.Expried": "expried"}},
+	// journal <-> deadline conversions (C07): remaining lifetime stored in a record, and the Expried replayed on reload
+	{Name: "getLockCommandExpriedTime", Pkg: "server", Recv: "Aof", Func: "GetLockCommandExpriedTime", Ret: "Nat",
+		Params: []string{"eflag : Nat16", "recExp : Nat16", "ct : Int", "now : Int"},
+		Map: map[string]string{"aofLock.ExpriedFlag": "eflag", "aofLock.ExpriedTime": "recExp", "int64(aofLock.CommandTime)": "ct",
+			"lockDb.currentTime": "now"}},
+	{Name: "getAofLockExpriedTime", Pkg: "server", Recv: "Aof", Func: "GetAofLockExpriedTime", Ret: "Nat",
+		Params: []string{"eflag : Nat16", "expried : Nat16", "dl : Int", "ct : Int"},
+		Map: map[string]string{"lockCommand.ExpriedFlag": "eflag", "lockCommand.Expried": "expried", "lock.expriedTime": "dl",
+			"int64(aofLock.CommandTime)": "ct"}},
+	// millisecond wheel: park time, hand-over decision, second-wheel deadline (C05 / C06, millisecond unit)
+	{Name: "msParkEndTimeout", Pkg: "server", Recv: "LockDB", Func: "AddMillisecondTimeOut", Ret: "Int", Target: "ms", Kind: "assign",
+		Params: []string{"nowMs : Int", "timeout : Nat16"},
+		Map:    map[string]string{"time.Now().UnixNano()/1e6": "nowMs", "lock.command.Timeout": "timeout"}},
+	{Name: "msToSecondWheelTimeout", Pkg: "server", Recv: "LockDB", Func: "checkMillisecondTimeOut", Ret: "Bool", Target: "self.AddTimeOut(lock)", Kind: "guard",
+		Params: []string{"timeout : Nat16"}, Map: map[string]string{"lock.command.Timeout": "timeout"}},
+	{Name: "msSecondDeadlineTimeout", Pkg: "server", Recv: "LockDB", Func: "checkMillisecondTimeOut", Ret: "Int", Target: "lock.timeoutTime", Kind: "assign",
+		Params: []string{"start : Int", "timeout : Nat16"}, Map: map[string]string{"lock.startTime": "start", "lock.command.Timeout": "timeout"}},
+	{Name: "msParkEndExpried", Pkg: "server", Recv: "LockDB", Func: "AddMillisecondExpried", Ret: "Int", Target: "ms", Kind: "assign",
+		Params: []string{"nowMs : Int", "expried : Nat16"},
+		Map:    map[string]string{"time.Now().UnixNano()/1e6": "nowMs", "lock.command.Expried": "expried"}},
+	{Name: "msToSecondWheelExpried", Pkg: "server", Recv: "LockDB", Func: "checkMillisecondExpried", Ret: "Bool", Target: "self.AddExpried(lock)", Kind: "guard",
+		Params: []string{"expried : Nat16"}, Map: map[string]string{"lock.command.Expried": "expried"}},
+	{Name: "msSecondDeadlineExpried", Pkg: "server", Recv: "LockDB", Func: "checkMillisecondExpried", Ret: "Int", Target: "lock.expriedTime", Kind: "assign",
+		Params: []string{"start : Int", "expried : Nat16"}, Map: map[string]string{"lock.startTime": "start", "lock.command.Expried": "expried"}},
 	{Name: "getMajorityMemberCount", Pkg: "server", Recv: "ArbiterManager", Func: "GetMajorityMemberCount", Ret: "Nat", Params: nil, Map: nil},
 }
 
@@ -88,6 +114,8 @@ func kNormExpr(e ast.Expr) string {
 		return kNormExpr(v.X)
 	case *ast.BasicLit:
 		return v.Value
+	case *ast.BinaryExpr:
+		return kNormExpr(v.X) + v.Op.String() + kNormExpr(v.Y)
 	}
 	return fmt.Sprintf("<%T>", e)
 }
@@ -186,7 +214,11 @@ func (k *ktr) expr(e ast.Expr) (string, string, error) { // returns Lean term, t
 				}
 				target := map[string]string{"uint8": "Nat8", "uint16": "Nat16", "uint32": "Nat32", "uint64": "Nat"}[id.Name]
 				if ty == "Int" {
-					return "", "", k.errf(e, "conversion of a signed value to %s is not translated", id.Name)
+					if natWidth(target) == 0 {
+						return "", "", k.errf(e, "conversion of a signed value to uint64 is not translated")
+					}
+					// two's-complement truncation: Lean's Int `%` is Euclidean, so the result is in [0, 2^w)
+					return "(Int.toNat (" + t + " % (" + pow2(natWidth(target)) + " : Int)))", target, nil
 				}
 				if ty == "Lit" {
 					return t, target, nil
@@ -267,15 +299,17 @@ func (k *ktr) expr(e ast.Expr) (string, string, error) { // returns Lean term, t
 			}
 			op := map[token.Token]string{token.ADD: "+", token.SUB: "-", token.MUL: "*", token.QUO: "/", token.REM: "%"}[v.Op]
 			if v.Op == token.SUB && ta != "Int" {
-				return "", "", k.errf(e, "subtraction on unsigned values is not translated (possible wrap-around)")
+				w := natWidth(ta)
+				if w == 0 {
+					return "", "", k.errf(e, "subtraction on 64-bit unsigned values is not translated")
+				}
+				// Go's unsigned subtraction wraps modulo 2^w (operands are < 2^w by their type)
+				return "(((" + a + " + " + pow2(w) + ") - " + b + ") % " + pow2(w) + ")", ta, nil
 			}
 			if (v.Op == token.QUO || v.Op == token.REM) && ta == "Int" {
-				// Go truncates towards zero, Lean's Int `/` is Euclidean: they agree for a non-negative dividend and a positive divisor.
-				// Accepted only for `int64(<unsigned term>) / <positive literal>`.
-				_, lit := v.Y.(*ast.BasicLit)
-				if !(lit && b != "(0 : Int)" && strings.HasPrefix(a, "(") && strings.HasSuffix(a, " : Int)") && !strings.Contains(a[:len(a)-7], " : Int")) {
-					return "", "", k.errf(e, "signed division is translated only for int64(unsigned)/literal")
-				}
+				// Go truncates towards zero: Int.tdiv / Int.tmod are exactly that
+				fn := map[token.Token]string{token.QUO: "Int.tdiv", token.REM: "Int.tmod"}[v.Op]
+				return "(" + fn + " " + a + " " + b + ")", "Int", nil
 			}
 			r := "(" + a + " " + op + " " + b + ")"
 			if w := natWidth(ta); w > 0 && (v.Op == token.ADD || v.Op == token.MUL) {
@@ -318,7 +352,10 @@ func (k *ktr) block(stmts []ast.Stmt, indent string) (string, error) {
 		if len(s.Results) != 1 {
 			return "", k.errf(s, "return arity")
 		}
-		t, _, err := k.expr(s.Results[0])
+		t, ty, err := k.expr(s.Results[0])
+		if err == nil && ty == "Lit" && k.spec.Ret == "Int" {
+			t = "(" + t + " : Int)"
+		}
 		return t, err
 	case *ast.AssignStmt:
 		if s.Tok == token.DEFINE && len(s.Lhs) == 1 && len(s.Rhs) == 1 {
@@ -338,6 +375,28 @@ func (k *ktr) block(stmts []ast.Stmt, indent string) (string, error) {
 			return "let " + id.Name + " := " + t + "\n" + indent + rest, nil
 		}
 		return "", k.errf(s, "only `x := expr` assignments are translated")
+	case *ast.IncDecStmt:
+		id, ok := s.X.(*ast.Ident)
+		if !ok {
+			return "", k.errf(s, "++/-- on a non-local")
+		}
+		cur, ok := k.locals[id.Name]
+		if !ok {
+			return "", k.errf(s, "++/-- on an unknown local")
+		}
+		ty := strings.SplitN(cur, "\x00", 2)[1]
+		if ty != "Int" {
+			return "", k.errf(s, "++/-- is translated only for int64 locals")
+		}
+		op := "+"
+		if s.Tok == token.DEC {
+			op = "-"
+		}
+		rest, err := k.block(stmts[1:], indent)
+		if err != nil {
+			return "", err
+		}
+		return "let " + id.Name + " := (" + id.Name + " " + op + " (1 : Int))\n" + indent + rest, nil
 	case *ast.IfStmt:
 		if s.Init != nil {
 			return "", k.errf(s, "if with init")
@@ -436,7 +495,11 @@ func extractKernels(proto, server *pkgInfo, out *Output, fail func(error)) {
 		k := &ktr{spec: spec, fset: p.fset, locals: map[string]string{}, consts: out.Consts}
 		var body string
 		var err error
-		if spec.Target != "" {
+		if spec.Kind == "assign" {
+			body, err = extractAssign(k, fd)
+		} else if spec.Kind == "guard" {
+			body, err = extractGuard(k, fd)
+		} else if spec.Target != "" {
 			body, err = extractFragment(k, fd)
 		} else {
 			body, err = k.block(fd.Body.List, "  ")
